@@ -15,6 +15,7 @@ CONSTANTS
     BoolOn = {}
     IteOn = FALSE
     CallOn = {"sub2"}
+    CallModes = {"pos"}
     AugOn = {}
     PassOn = FALSE
     ChainOn = FALSE
